@@ -463,6 +463,16 @@ def monitor(rp, script, out, tasks, crash, props):
                             viol.append(('C02', tag + 'unknown-node', str(x)))
                         if len(set(x[1])) != cps or len(x[1]) != cps:
                             viol.append(('C02', tag + 'wrong-core-count', 'task %d: cores %s, requested %d' % (uid, x[1], cps)))
+                        # ... cores and GPUs a rank can use: what the platform blocks (DOWN in the node map) does not count
+                        # (not judged for scripts with placements of the application's own: such a placement on a blocked core
+                        #  erases the block from the node map - recorded finding F3)
+                        if x[0] in init and not has_app:
+                            dead_c = [c for c in x[1] if c < len(init[x[0]]['cores']) and init[x[0]]['cores'][c] is None]
+                            dead_g = [i for i, _ in x[2] if i < len(init[x[0]]['gpus']) and init[x[0]]['gpus'][i] is None]
+                            if dead_c or dead_g:
+                                viol.append(('C02', tag + 'rank-granted-fewer-usable-resources-than-requested',
+                                             'task %d: of the cores %s / GPUs %s of a rank on node %d, cores %s / GPUs %s are blocked on that node'
+                                             % (uid, x[1], [i for i, _ in x[2]], x[0], dead_c, dead_g)))
                         g = r['gpr']
                         if g >= U:
                             # (an amount above one GPU that is not whole cannot be granted as asked: g % U != 0 never fits)
